@@ -55,6 +55,25 @@ var specs = map[string]propSpec{
 		},
 		Assumptions: refAssumptions("node-sets that are converted to a string or counted inside predicates are flat paths while the known findings KF-A/KF-B are confirmed present"),
 	},
+	"C11": {
+		Units: []unitSpec{
+			{Name: "rapid-union", Test: "TestC11Rapid", Rapid: true, QuickChecks: 60000, ThoroughChecks: 700000, QuickShards: 4, ThoroughShards: 16},
+		},
+		Assumptions: refAssumptions("true 64-bit FNV collisions of the engine's identity hash are not searched for; the alphabet targets ambiguous key renderings"),
+	},
+	"C12": {
+		Units: []unitSpec{
+			{Name: "rapid-flat-order", Test: "TestC12Flat", Rapid: true, QuickChecks: 60000, ThoroughChecks: 600000, QuickShards: 2, ThoroughShards: 8},
+			{Name: "rapid-iterator-protocol", Test: "TestC12Protocol", Rapid: true, QuickChecks: 40000, ThoroughChecks: 500000, QuickShards: 2, ThoroughShards: 8},
+		},
+		Assumptions: refAssumptions("count(e) is compared with the length of the sequence the engine yields (duplicates included), as C12 states it"),
+	},
+	"C13": {
+		Units: []unitSpec{
+			{Name: "rapid-context-composition", Test: "TestC13Rapid", Rapid: true, QuickChecks: 40000, ThoroughChecks: 500000, QuickShards: 4, ThoroughShards: 16},
+		},
+		Assumptions: refAssumptions("addr(n) uses child::node()[i] steps (C03 fragment) and @name for attributes (attribute names are unique per element)"),
+	},
 	"C03": {
 		Units: []unitSpec{
 			{Name: "rapid-positional", Test: "TestC03Rapid", Rapid: true, QuickChecks: 50000, ThoroughChecks: 600000, QuickShards: 4, ThoroughShards: 16},
